@@ -56,7 +56,7 @@ let () =
       | Some k -> Some (String.sub t 0 k, String.sub t (k + 1) (String.length t - k - 1)) | None -> None) toks in
     let str k = try List.assoc k kv with Not_found -> "" in
     let num k = try int_of_string (List.assoc k kv) with Not_found -> 0 in
-    let p = pattern_of inst in
+    let p = (try pattern_of inst with _ -> []) in
     let e = zs (str "E") and s = zs (str "S") in
     let base = num "base" in
     let out, spec = match op with
@@ -144,6 +144,29 @@ let () =
              Printf.sprintf "cs=%d ext=%s p=%s v=%s src=%s" (List.length c) (join m'.c14_ext) (join (List.map (c14_map m') tu))
                (join_i (List.map (fun i -> getv (c14_mdarray_get c m' i)) tu)) (join_i src)
          | None -> "UB-OR-ASSERT"), ""
+    | "xcv" ->
+        (* inst = "t:p>t':p'" : source pattern p, target pattern p' *)
+        let k = String.index inst '>' in
+        let ps = pattern_of (String.sub inst 0 k) and pd = pattern_of (String.sub inst (k + 1) (String.length inst - k - 1)) in
+        let dyn_s = c14_extents_ctor ps e in
+        let dyn_d = c14_extents_convert pd ps dyn_s in
+        let ed = c14_extents_list pd dyn_d in
+        let back = c14_extents_list ps (c14_extents_convert ps pd dyn_d) in
+        let es = c14_extents_list ps dyn_s in
+        let tu = c14_tuples ed in
+        let one tag lay =
+          let m = mk lay ed s in
+          let rss = int_of_z (c14_required_span_size (mk lay es s)) in
+          ignore rss;
+          let pz = join (List.map (c14_mdspan_offset (z_of_int base) m) tu) in
+          Printf.sprintf " | %s ext=%s %s | sp%s ext=%s size=%d p=%s" tag (join ed) (describe m) tag (join ed) (int_of_z (c14_md_size m)) pz
+          ^ (match lay with
+             | C14_Stride -> ""
+             | _ -> Printf.sprintf " | ar%s ext=%s cs=%d v=%s" tag (join ed) (int_of_z (c14_required_span_size m))
+                      (join_i (List.mapi (fun n _ -> 7000 + n) tu))) in
+        Printf.sprintf "ext=%s back=%s eq=%s" (join ed) (join back) (b01 (c14_extents_eqb ed es && c14_extents_eqb back es))
+        ^ one "L" C14_Left ^ one "R" C14_Right ^ one "S" C14_Stride,
+        join e
     | "p1cvt" ->
         let e = ext_of p e in
         (match c14_relayout (lay_of (str "lay")) (mk C14_Stride e s) with Some m -> describe m | None -> "ASSERT"), ""
